@@ -921,7 +921,12 @@ func (x *Exec) userAsserts(st *State, fr *Frame, cn callName, after bool) {
 		return
 	}
 	for i, a := range fr.contract.Asserts {
-		if a.Callee != cn.name || a.Ord != cn.ord || a.After != after {
+		if a.Callee == "*" {
+			// every call (not the entry/return anchors)
+			if a.After != after || strings.HasPrefix(cn.name, "@") {
+				continue
+			}
+		} else if a.Callee != cn.name || a.Ord != cn.ord || a.After != after {
 			continue
 		}
 		ctx := x.specCtx(st, fr)
